@@ -8,7 +8,7 @@
 (*   mkprom      make_promise (heap / storage)     src/cocls/future.h:878-950 *)
 (*   discard     discard(fn)                       src/cocls/future.h:968-991 *)
 (*   callfn      call_fn_future_awaiter            src/cocls/future.h:1026-1062 *)
-(*   conv_*      the six future_conv forms         src/cocls/future_conv.h *)
+(*   conv_X      the six future_conv forms         src/cocls/future_conv.h *)
 (*     conv_mem      member function  To Ctx::fn(From &)          :56-75        *)
 (*     conv_mem_v    member function  To Ctx::fn()  (From = void) :77-95        *)
 (*     conv_pp       member function  suspend_point<void> Ctx::fn(From &, promise<To> &) :98-111 *)
@@ -150,8 +150,8 @@ FreeHelper(st) ==
 
 CvBase(st, res) == IF par.ad \in VoidSrc THEN 10 * st.round ELSE res.v
 
-(* resume function of future_conv: p = std::move(_prom); try { p(fn(*_fut)) } catch (...) { p(current_exception()) }
-   `*_fut` rethrows the source's exception, await_canceled_exception for a broken promise (future.h:338-346). *)
+(* resume function of future_conv: p = std::move(_prom); try { p(fn(_fut.value())) } catch (...) { p(current_exception()) }
+   reading the source future rethrows the source's exception, await_canceled_exception for a broken promise (future.h:338-346). *)
 Convert(st, res, th) ==
     LET s1 == [st EXCEPT !.prom = "null"]
         looks == par.ad \notin VoidSrc \/ FixVoidSrc
